@@ -241,6 +241,61 @@ def run(chk):
                           f"the documented formula evaluated exactly gives {ref}",
                           {"estimator": "knn", "conditional": cond, "metric": metric, "k": k, "X": Xf.tolist(), "Y": Yf.tolist(),
                            "Z": Zf.tolist() if cond else None, "returned": raw, "formula": ref})
+    # ------------------------------------------------------------------ call histories on the SAME array objects, other dtypes, N > 1024
+    for t in range(24 if quick else 800):
+        N = int(rng.integers(8, 41)) if t % 6 else int(rng.choice([1025, 1500, 2049]))
+        kx, ky, kz = int(rng.integers(1, 3)), int(rng.integers(1, 3)), int(rng.integers(1, 3))
+        cond = bool(t % 2)
+        est = "knn" if t % 3 else "kde"
+        if N > 1024:
+            est = "knn"
+        mk_ = lambda: (rng.integers(-2000, 2000, (N, kx + ky + kz)) / 64.0)
+        W1, W2 = mk_(), mk_()
+        X, Y, Z = W1[:, :kx].copy(), W1[:, kx:kx + ky].copy(), W1[:, kx + ky:].copy()
+        k = int(rng.integers(1, 6))
+        metric = str(rng.choice(list(METRICS)))
+        bwv = float(rng.choice([0.5, 1.0, 2.0]))
+
+        def call(Xa, Ya, Za):
+            if est == "knn":
+                return float(knn_conditional_mutual_information(Xa, Ya, Za, metric=metric, k=k) if cond
+                             else knn_mutual_information(Xa, Ya, metric=metric, k=k))
+            return float(kde_conditional_mutual_information(Xa, Ya, Za, bandwidth=bwv) if cond
+                         else kde_mutual_information(Xa, Ya, bandwidth=bwv))
+
+        def reference(Xa, Ya, Za):
+            if est == "knn":
+                blocks = [(tuple(Fraction(v) for v in Xa[i]), tuple(Fraction(v) for v in Ya[i]),
+                           tuple(Fraction(v) for v in Za[i]) if cond else ()) for i in range(N)]
+                return knn_reference(blocks, metric, k, cond)[0]
+            return kde_reference("cmi" if cond else "mi", Xa, Ya, Za, bwv)
+        v1 = call(X, Y, Z)
+        which = str(rng.choice(["Y", "Z", "X", "YZ"]))
+        if "Y" in which:
+            Y[:] = W2[:, kx:kx + ky]
+        if "Z" in which:
+            Z[:] = W2[:, kx + ky:]
+        if which == "X":
+            X[:] = W2[:, :kx]
+        v2 = call(X, Y, Z)
+        ref2 = reference(X, Y, Z) if N <= 40 else None
+        chk.case(key=("hist", est, W1.tobytes(), W2.tobytes(), which, cond), nontrivial=True)
+        chk.count("history.calls")
+        chk.count("history.N_gt_1024" if N > 1024 else "history.small_N")
+        if ref2 is not None and math.isfinite(v2) and abs(v2 - ref2) > TOL * max(1.0, abs(ref2)):
+            chk.violation("counterexample", f"{est} {'conditional ' if cond else ''}estimate after overwriting {which} in place (same array "
+                          f"objects) is {v2}; the formula on the arrays' current contents gives {ref2} (first call returned {v1})",
+                          {"estimator": est, "conditional": cond, "overwritten": which, "metric": metric, "k": k, "bandwidth": bwv,
+                           "X": X.tolist(), "Y": Y.tolist(), "Z": Z.tolist(), "returned": v2, "formula": ref2})
+        # the same numbers as float32 / integer-typed arrays / Fortran order / fresh copies must give the same estimate
+        Xi, Yi, Zi = np.rint(X * 64), np.rint(Y * 64), np.rint(Z * 64)
+        vf = call(Xi, Yi, Zi)
+        for nm, conv in (("int64", lambda a: a.astype(np.int64)), ("fortran", np.asfortranarray), ("copy", np.array)):
+            vv = call(conv(Xi), conv(Yi), conv(Zi))
+            if not ((math.isnan(vf) and math.isnan(vv)) or vf == vv or abs(vf - vv) <= TOL * max(1.0, abs(vf))):
+                chk.violation("counterexample", f"{est} estimate on integer-valued data is {vf} for float64 arrays but {vv} for the same "
+                              f"numbers presented as {nm}", {"estimator": est, "conditional": cond, "presentation": nm, "metric": metric,
+                                                             "k": k, "X": Xi.tolist(), "Y": Yi.tolist(), "Z": Zi.tolist()})
     # ------------------------------------------------------------------ KDE (verified enclosure in Coq)
     dc, dp, dd = [], [], []
     n_kde = 20 if quick else 400
